@@ -5,6 +5,7 @@ import (
 	"fmt"
 	"os"
 	"path/filepath"
+	"sort"
 	"strings"
 
 	"github.com/acekingke/yaccgo/verifsim/enga"
@@ -277,7 +278,13 @@ func execC04a(ctx *Ctx, in *Input) *Result {
 				shiftTo[c] = t.To
 			}
 		}
-		for c, cs := range cands {
+		var cells []cell
+		for c := range cands {
+			cells = append(cells, c)
+		}
+		sort.Slice(cells, func(i, j int) bool { return cells[i].q < cells[j].q || cells[i].q == cells[j].q && cells[i].ysym < cells[j].ysym })
+		for _, c := range cells {
+			cs := cands[c]
 			if len(cs) == 1 {
 				continue
 			}
